@@ -33,19 +33,41 @@ VECTORS = {
 REWRITES_COMMENTS = {"v3"}
 
 
+_SRC_CACHE = None
+
+
+def frozen_src():
+    """src/*.rs of the FROZEN pinned sources (reference/src.tar): rustfmt's own sources are
+    part of the corpus as texts, and a text of the universe must not change when the tree under
+    test does (a repair or a change under test would otherwise shift the universe)."""
+    global _SRC_CACHE
+    if _SRC_CACHE is None:
+        import re
+        import tarfile
+        out = []
+        with tarfile.open(core.VERIF / "reference" / "src.tar") as tf:
+            for m in tf.getmembers():
+                nm = m.name[2:] if m.name.startswith("./") else m.name
+                if m.isfile() and re.fullmatch(r"src/[^/]+\.rs", nm):
+                    out.append((nm, tf.extractfile(m).read()))
+        _SRC_CACHE = sorted(out)
+    return _SRC_CACHE
+
+
 def corpus(include_src=True):
     files = sorted((core.REPO / "tests" / "source").glob("*.rs")) + \
         sorted((core.REPO / "tests" / "target").glob("*.rs"))
+    raw = [(str(p.relative_to(core.REPO)), p.read_bytes()) for p in files]
     if include_src:
-        files += sorted((core.REPO / "src").glob("*.rs"))
+        raw += frozen_src()
     out = []
-    for p in files:
+    for name, b in raw:
         try:
-            t = p.read_text()
+            t = b.decode("utf-8")
         except UnicodeDecodeError:
             continue
         if len(t) <= 60000:
-            out.append((str(p.relative_to(core.REPO)), t))
+            out.append((name, t))
     return out
 
 
